@@ -21,6 +21,7 @@ package mqtt
 //@ loop 1: unroll 4
 //@ ensures[C09] (err != nil) == (len(topic) == 0 || len(topic) > 65535 || !utf8ok(arr(topic), off(topic), len(topic)) || hasnul(arr(topic), off(topic), len(topic)) || pubrem(len(topic), len(message), packetID) > 268435455)
 //@ ensures[C09] err != nil ==> (Is(err, errZero) || Is(err, errStringMax) || Is(err, errUTF8) || Is(err, errNull) || Is(err, errPacketMax))
+//@ ensures[C14] err != nil ==> !ended(err) && !Is(err, ErrMax) && !Is(err, ErrDown)
 //@ ensures[C09] err == nil ==> len(r) == 2 && r[1] == message && fresh(r)
 //@ ensures[C09] err == nil ==> len(r[0]) == 1 + vlen(pubrem(len(topic), len(message), packetID)) + 2 + len(topic) + ite(packetID != 0, 2, 0)
 //@ ensures[C09,C05] err == nil ==> r[0][0] == head
@@ -90,6 +91,18 @@ package mqtt
 // IsDeny over the package's validation sentinels.
 //@ pred denied(err): Is(err, errZero) || Is(err, errStringMax) || Is(err, errUTF8) || Is(err, errNull) || Is(err, errPacketMax) || Is(err, errSubscribeNone) || Is(err, errUnsubscribeNone)
 
+// What a waiting request may be answered with on its callback channel: the broker's refusal of a subscription, or
+// the loss of the connection after submission; never one of the classes the documentation reserves for "not
+// submitted". Every sender on such a channel is obliged to it (asserted at the send), every waiting request relies
+// on it (recvinv).
+//@ pred notsent(v): denied(v) || Is(v, ErrMax) || Is(v, ErrClosed) || Is(v, ErrDown) || Is(v, ErrCanceled)
+//@ pred pingans(v): v != nil && Is(v, ErrBreak) && !hastype(v, SubscribeError) && !notsent(v)
+//@ pred reqans(v): v != nil && (Is(v, ErrBreak) || hastype(v, SubscribeError)) && !notsent(v)
+// the classes the package documentation lists for Subscribe, Unsubscribe and Ping
+// IsEnd over the three sentinels
+//@ pred ended(err): Is(err, ErrClosed) || Is(err, ErrCanceled) || Is(err, ErrAbandoned)
+//@ pred reqclass(err): notsent(err) || Is(err, ErrSubmit) || Is(err, ErrBreak) || Is(err, ErrAbandoned) || hastype(err, SubscribeError)
+
 // Content invariants of the token channels: every sender is obliged to them,
 // every receiver may rely on them.
 //@ chaninv mqtt.Client.writeSem(v): v != nil
@@ -155,6 +168,7 @@ package mqtt
 //@ ensures[C08,C14] err == nil ==> forall(w, w == qat(c.writeSem, 0) ==> wire_len(w) == old(wire_len(w)) + len(p) && forall(i, old(wire_len(w)), wire_len(w), wire(w)[i] == p[i - old(wire_len(w))]) && forall(k, 0, old(wire_len(w)), wire(w)[k] == old(wire(w))[k]))
 //@ ensures[C08,C14] err == nil ==> forall(k, k != qat(c.writeSem, 0) ==> wire_len(k) == old(wire_len(k)))
 //@ ensures[C08,C10,C14] err != nil && err != ErrCanceled && err != ErrClosed && err != ErrDown ==> Is(err, ErrSubmit) && len(c.writeSem) == 1 && qat(c.writeSem, 0) == boxed(connSignal, 0)
+//@ ensures[C14,id=submit_is_no_other_class] err != nil && Is(err, ErrSubmit) ==> !notsent(err)
 //@ ensures[C14] err == ErrCanceled || err == ErrClosed || err == ErrDown ==> forall(k, wire_len(k) == old(wire_len(k)))
 //@ ensures cap(c.writeSem) == 1 && (closed(c.writeSem) ==> len(c.writeSem) == 0)
 //@ ensures forall(k, 0, len(p), p[k] == old(p[k]))
@@ -166,6 +180,7 @@ package mqtt
 //@ modifies wire(conn), wire_len(conn), wclosed(conn), wdl(conn), chanstate(c.writeSem)
 //@ ensures[C08,C14] err == nil ==> len(c.writeSem) == 1 && !closed(c.writeSem) && qat(c.writeSem, 0) == conn && wire_len(conn) == old(wire_len(conn)) + len(p) && forall(i, old(wire_len(conn)), wire_len(conn), wire(conn)[i] == p[i - old(wire_len(conn))]) && forall(k, 0, old(wire_len(conn)), wire(conn)[k] == old(wire(conn))[k])
 //@ ensures[C08,C10,C14] err != nil ==> Is(err, ErrSubmit) && !denied(err) && !Is(err, ErrMax) && err != ErrCanceled && err != ErrClosed && err != ErrDown && len(c.writeSem) == 1 && qat(c.writeSem, 0) == boxed(connSignal, 0)
+//@ ensures[C14,id=submit_is_no_other_class] err != nil && Is(err, ErrSubmit) ==> !notsent(err)
 //@ ensures cap(c.writeSem) == 1 && !closed(c.writeSem)
 //@ ensures forall(k, 0, len(p), p[k] == old(p[k]))
 
@@ -180,6 +195,7 @@ package mqtt
 //@ ensures[C08,C14] err == nil ==> forall(w, w == qat(c.writeSem, 0) ==> wire_len(w) == old(wire_len(w)) + len(p) && forall(i, old(wire_len(w)), wire_len(w), wire(w)[i] == p[i - old(wire_len(w))]) && forall(k, 0, old(wire_len(w)), wire(w)[k] == old(wire(w))[k]))
 //@ ensures[C08,C14] err == nil ==> forall(k, k != qat(c.writeSem, 0) ==> wire_len(k) == old(wire_len(k)))
 //@ ensures[C08,C10,C14] err != nil && err != ErrClosed && err != ErrDown ==> Is(err, ErrSubmit) && len(c.writeSem) == 1 && qat(c.writeSem, 0) == boxed(connSignal, 0)
+//@ ensures[C14,id=submit_is_no_other_class] err != nil && Is(err, ErrSubmit) ==> !notsent(err)
 //@ ensures[C10,C14] err == ErrClosed || err == ErrDown ==> forall(k, wire_len(k) == old(wire_len(k)))
 //@ ensures[C10] err == ErrDown ==> len(c.writeSem) == 1 && (qat(c.writeSem, 0) == boxed(connSignal, 0) || qat(c.writeSem, 0) == boxed(connSignal, 1))
 //@ ensures cap(c.writeSem) == 1 && (closed(c.writeSem) ==> len(c.writeSem) == 0)
@@ -197,6 +213,7 @@ package mqtt
 //@ ensures[C08,C14] err == nil ==> forall(w, w == qat(c.writeSem, 0) ==> wire_len(w) == old(wire_len(w)) + old(flatlen(p)) && forall(i, old(wire_len(w)), wire_len(w), wire(w)[i] == old(flatat(p, i - old(wire_len(w))))) && forall(k, 0, old(wire_len(w)), wire(w)[k] == old(wire(w))[k]))
 //@ ensures[C08,C14] err == nil ==> forall(k, k != qat(c.writeSem, 0) ==> wire_len(k) == old(wire_len(k)))
 //@ ensures[C08,C10,C14] err != nil && err != ErrCanceled && err != ErrClosed && err != ErrDown ==> Is(err, ErrSubmit) && len(c.writeSem) == 1 && qat(c.writeSem, 0) == boxed(connSignal, 0)
+//@ ensures[C14,id=submit_is_no_other_class] err != nil && Is(err, ErrSubmit) ==> !notsent(err)
 //@ ensures[C14] err == ErrCanceled || err == ErrClosed || err == ErrDown ==> forall(k, wire_len(k) == old(wire_len(k)))
 //@ ensures cap(c.writeSem) == 1 && (closed(c.writeSem) ==> len(c.writeSem) == 0)
 
@@ -210,6 +227,7 @@ package mqtt
 //@ ensures[C08,C14] err == nil ==> forall(w, w == qat(c.writeSem, 0) ==> wire_len(w) == old(wire_len(w)) + old(flatlen(p)) && forall(i, old(wire_len(w)), wire_len(w), wire(w)[i] == old(flatat(p, i - old(wire_len(w))))) && forall(k, 0, old(wire_len(w)), wire(w)[k] == old(wire(w))[k]))
 //@ ensures[C08,C14] err == nil ==> forall(k, k != qat(c.writeSem, 0) ==> wire_len(k) == old(wire_len(k)))
 //@ ensures[C08,C10,C14] err != nil && err != ErrClosed && err != ErrDown ==> Is(err, ErrSubmit) && len(c.writeSem) == 1 && qat(c.writeSem, 0) == boxed(connSignal, 0)
+//@ ensures[C14,id=submit_is_no_other_class] err != nil && Is(err, ErrSubmit) ==> !notsent(err)
 //@ ensures[C14] err == ErrClosed || err == ErrDown ==> forall(k, wire_len(k) == old(wire_len(k)))
 //@ ensures cap(c.writeSem) == 1 && (closed(c.writeSem) ==> len(c.writeSem) == 0)
 
@@ -351,6 +369,9 @@ package mqtt
 
 // SUBACK: validation first, then the slot is released and its own callback answered.
 //@ func mqtt.(*Client).onSUBACK -> err
+// whatever the waiting Subscribe is answered with is one of its documented classes
+//@ at[C14] send done#1: assert reqans(v)
+//@ at[C14] send done#2: assert reqans(v)
 //@ modifies region("map.map[uint16]mqtt.unorderedCallback"), region("map.len"), region("chan.len.error"), region("chan.head.error"), region("chan.q.error"), region("chan.closed.error")
 //@ requires c.perPacketID != nil
 //@ loop 1: invariant rangeindex >= -1 && 0 <= failN && failN <= rangeindex + 1 && forall(k, 0, rangeindex + 1, returnCodes[k] == 0 || returnCodes[k] == 1 || returnCodes[k] == 2 || returnCodes[k] == 128)
@@ -586,7 +607,7 @@ package mqtt
 //@ modifies region("map.map[uint16]mqtt.unorderedCallback"), region("map.len"), region("chan.len.error"), region("chan.head.error"), region("chan.q.error"), region("ghost.visited")
 //@ loop 1: modifies region("map.map[uint16]mqtt.unorderedCallback"), region("map.len"), region("chan.len.error"), region("chan.head.error"), region("chan.q.error"), region("ghost.visited")
 //@ loop 1: invariant forall(k, visited(txs.perPacketID, k) ==> !has(txs.perPacketID, k))
-//@ at[C10,C11] send done#1: assert Is(v, ErrBreak)
+//@ at[C10,C11,C14] send done#1: assert reqans(v) && Is(v, ErrBreak)
 //@ ensures[C10,C11] forall(k, !has(txs.perPacketID, k))
 
 // toOffline: leave the connection; everything pending on it is released.
@@ -712,6 +733,7 @@ package mqtt
 //@ ensures[C14] forall(k, wire_len(k) == old(wire_len(k)))
 
 //@ func mqtt.(*Client).Disconnect -> err
+//@ ensures[C14,id=deny_end_disjoint] err != nil ==> !(denied(err) && ended(err))
 //@ stable writeSem
 // Rely: whoever closes connSem has taken the write token and closed writeSem before.
 //@ onclosed connSem: closed(c.writeSem) && len(c.writeSem) == 0
@@ -721,6 +743,8 @@ package mqtt
 //@ ensures[C12,C14] old(closed(c.connSem)) ==> err != nil && Is(err, ErrClosed) && forall(k, wire_len(k) == old(wire_len(k)))
 //@ ensures[C12,C14] err == nil ==> exists(w, wire_len(w) == old(wire_len(w)) + 2 && wire(w)[old(wire_len(w))] == 224 && wire(w)[old(wire_len(w)) + 1] == 0 && wclosed(w))
 //@ ensures[C14] err != nil && (Is(err, ErrClosed) || Is(err, ErrCanceled) || Is(err, ErrDown)) ==> forall(k, wire_len(k) == old(wire_len(k)))
+// "Disconnect is similar, yet it won't IsDeny": the three not-submitted classes, or ErrSubmit
+//@ ensures[C14,id=documented_classes] err != nil ==> !denied(err) && (Is(err, ErrClosed) || Is(err, ErrDown) || Is(err, ErrCanceled) || Is(err, ErrSubmit))
 
 // discard: skips exactly n bytes of the stream, tolerating deadline expiries that saw progress.
 //@ func mqtt.(*Client).discard -> err
@@ -778,6 +802,7 @@ package mqtt
 //@ requires packet[0][len(packet[0])-2]*256 + packet[0][len(packet[0])-1] == 32768 || packet[0][len(packet[0])-2]*256 + packet[0][len(packet[0])-1] == 49152
 //@ at[C01,C17] send queue#1: assert st_has(c.persistence, old(packet[0][len(packet[0])-2]*256 + packet[0][len(packet[0])-1]) + seqNo % 16384)
 //@ ensures[C17,C14] (err != nil && Is(err, ErrMax)) == (old(len(out.queue)) == cap(out.queue))
+//@ ensures[C14,id=documented_classes] err != nil ==> Is(err, ErrMax) || perr(err)
 //@ ensures[C17,C14,C01] err != nil ==> done == nil && len(out.queue) == old(len(out.queue))
 //@ ensures[C17,C14] err != nil && Is(err, ErrMax) ==> forall(k, st_has(c.persistence, k) == old(st_has(c.persistence, k))) && forall(j, 0, len(packet[0]), packet[0][j] == old(packet[0][j]))
 //@ ensures[C01,C17] err == nil ==> len(out.queue) == old(len(out.queue)) + 1 && done != nil && fresh(done) && cap(done) == 2 && len(done) == 0 && !closed(done)
@@ -799,6 +824,7 @@ package mqtt
 //@ at[C05,C01] call applySeqNoAndEnqueue#1: assert len(out.seqSem) == 0
 //@ at[C05] call writeBuffersNoWait#1: assert len(out.seqSem) == 0 && seq.submitN >= seq.acceptN - 1
 //@ ensures[C12,C14] old(closed(out.seqSem)) ==> err == ErrClosed && exchange == nil
+//@ ensures[C14,id=documented_classes] err != nil ==> err == ErrClosed || Is(err, ErrMax) || perr(err)
 //@ ensures[C14,C17] err != nil ==> exchange == nil && len(out.queue) == old(len(out.queue)) && forall(k, wire_len(k) == old(wire_len(k)))
 //@ ensures[C05,C01] !closed(out.seqSem) ==> len(out.seqSem) == 1
 //@ ensures[C01,C05] err == nil && old(len(out.seqSem)) == 1 ==> qat(out.seqSem, 0).acceptN == (old(qat(out.seqSem, 0).acceptN) + 1) % 18446744073709551616 && len(out.queue) == old(len(out.queue)) + 1 && exchange != nil
@@ -822,6 +848,7 @@ package mqtt
 
 // publish (QoS 0): denied arguments leave no trace; success means the whole PUBLISH went to one connection.
 //@ func mqtt.(*Client).publish -> err
+//@ ensures[C14,id=deny_end_disjoint] err != nil ==> !(denied(err) && ended(err))
 //@ requires[C10] !rdr(c)
 //@ modifies wire, wire_len, wclosed, wdl, chanstate(c.writeSem), chanstate(c.onlineSig)
 //@ requires writable(c)
@@ -829,26 +856,32 @@ package mqtt
 //@ ensures[C09,C14] err != nil && denied(err) ==> forall(k, wire_len(k) == old(wire_len(k))) && len(c.writeSem) == old(len(c.writeSem))
 //@ ensures[C14] err != nil ==> denied(err) || Is(err, ErrSubmit) || Is(err, ErrClosed) || Is(err, ErrDown) || Is(err, ErrCanceled)
 //@ ensures[C14] err != nil && !Is(err, ErrSubmit) ==> forall(k, wire_len(k) == old(wire_len(k)))
+//@ ensures[C14,id=not_submitted_nothing_written] err != nil && notsent(err) ==> forall(k, wire_len(k) == old(wire_len(k)))
 //@ ensures[C09,C08,reveal=flatlen_,reveal=flatat_] err == nil ==> forall(w, w == qat(c.writeSem, 0) ==> wire_len(w) == old(wire_len(w)) + 1 + vlen(pubrem(len(topic), len(message), 0)) + pubrem(len(topic), len(message), 0) && wire(w)[old(wire_len(w))] == head)
 //@ ensures[C14] forall(k, 0, len(message), message[k] == old(message[k]))
 
 //@ func mqtt.(*Client).Publish -> err
+//@ ensures[C14,id=deny_end_disjoint] err != nil ==> !(denied(err) && ended(err))
 //@ requires[C10] !rdr(c)
 //@ requires writable(c)
 //@ at[C05,C09] call publish#1: assert head == 48
 //@ ensures[C09,C14] (err != nil && denied(err)) == (len(topic) == 0 || len(topic) > 65535 || !utf8ok(arr(topic), off(topic), len(topic)) || hasnul(arr(topic), off(topic), len(topic)) || pubrem(len(topic), len(message), 0) > 268435455)
 //@ ensures[C14] err != nil ==> denied(err) || Is(err, ErrSubmit) || Is(err, ErrClosed) || Is(err, ErrDown) || Is(err, ErrCanceled)
 //@ ensures[C09,C14] err != nil && !Is(err, ErrSubmit) ==> forall(k, wire_len(k) == old(wire_len(k)))
+//@ ensures[C14,id=not_submitted_nothing_written] err != nil && notsent(err) ==> forall(k, wire_len(k) == old(wire_len(k)))
 
 //@ func mqtt.(*Client).PublishRetained -> err
+//@ ensures[C14,id=deny_end_disjoint] err != nil ==> !(denied(err) && ended(err))
 //@ requires[C10] !rdr(c)
 //@ requires writable(c)
 //@ at[C05,C09] call publish#1: assert head == 49
 //@ ensures[C09,C14] (err != nil && denied(err)) == (len(topic) == 0 || len(topic) > 65535 || !utf8ok(arr(topic), off(topic), len(topic)) || hasnul(arr(topic), off(topic), len(topic)) || pubrem(len(topic), len(message), 0) > 268435455)
 //@ ensures[C14] err != nil ==> denied(err) || Is(err, ErrSubmit) || Is(err, ErrClosed) || Is(err, ErrDown) || Is(err, ErrCanceled)
 //@ ensures[C09,C14] err != nil && !Is(err, ErrSubmit) ==> forall(k, wire_len(k) == old(wire_len(k)))
+//@ ensures[C14,id=not_submitted_nothing_written] err != nil && notsent(err) ==> forall(k, wire_len(k) == old(wire_len(k)))
 
 //@ func mqtt.(*Client).PublishAtLeastOnce -> exchange, err
+//@ ensures[C14,id=deny_end_disjoint] err != nil ==> !(denied(err) && ended(err))
 //@ requires c.persistence != nil && c.atLeastOnce.queue != nil && !closed(c.atLeastOnce.queue) && c.atLeastOnce.seqSem != nil && cap(c.atLeastOnce.seqSem) == 1 && (closed(c.atLeastOnce.seqSem) ==> len(c.atLeastOnce.seqSem) == 0)
 //@ requires c.writeSem != nil && cap(c.writeSem) == 1 && (closed(c.writeSem) ==> len(c.writeSem) == 0)
 //@ at[C05,C09] call publishPacket#1: assert head == 50 && packetID == 32768
@@ -856,8 +889,11 @@ package mqtt
 //@ ensures[C09,C14] (err != nil && denied(err)) ==> exchange == nil && forall(k, wire_len(k) == old(wire_len(k))) && forall(k, st_has(c.persistence, k) == old(st_has(c.persistence, k))) && len(c.atLeastOnce.queue) == old(len(c.atLeastOnce.queue))
 //@ ensures[C09] len(topic) == 0 || len(topic) > 65535 || !utf8ok(arr(topic), off(topic), len(topic)) || hasnul(arr(topic), off(topic), len(topic)) || pubrem(len(topic), len(message), 1) > 268435455 ==> err != nil && denied(err)
 //@ ensures[C14,C17] err != nil ==> exchange == nil && len(c.atLeastOnce.queue) == old(len(c.atLeastOnce.queue)) && forall(k, wire_len(k) == old(wire_len(k)))
+// "Errors (either ErrClosed, ErrMax, any IsDeny, or any Save return)"
+//@ ensures[C14,id=documented_classes] err != nil ==> denied(err) || Is(err, ErrClosed) || Is(err, ErrMax) || perr(err)
 
 //@ func mqtt.(*Client).PublishAtLeastOnceRetained -> exchange, err
+//@ ensures[C14,id=deny_end_disjoint] err != nil ==> !(denied(err) && ended(err))
 //@ requires c.persistence != nil && c.atLeastOnce.queue != nil && !closed(c.atLeastOnce.queue) && c.atLeastOnce.seqSem != nil && cap(c.atLeastOnce.seqSem) == 1 && (closed(c.atLeastOnce.seqSem) ==> len(c.atLeastOnce.seqSem) == 0)
 //@ requires c.writeSem != nil && cap(c.writeSem) == 1 && (closed(c.writeSem) ==> len(c.writeSem) == 0)
 //@ at[C05,C09] call publishPacket#1: assert head == 51 && packetID == 32768
@@ -865,8 +901,11 @@ package mqtt
 //@ ensures[C09,C14] (err != nil && denied(err)) ==> exchange == nil && forall(k, wire_len(k) == old(wire_len(k))) && forall(k, st_has(c.persistence, k) == old(st_has(c.persistence, k))) && len(c.atLeastOnce.queue) == old(len(c.atLeastOnce.queue))
 //@ ensures[C09] len(topic) == 0 || len(topic) > 65535 || !utf8ok(arr(topic), off(topic), len(topic)) || hasnul(arr(topic), off(topic), len(topic)) || pubrem(len(topic), len(message), 1) > 268435455 ==> err != nil && denied(err)
 //@ ensures[C14,C17] err != nil ==> exchange == nil && len(c.atLeastOnce.queue) == old(len(c.atLeastOnce.queue)) && forall(k, wire_len(k) == old(wire_len(k)))
+// "Errors (either ErrClosed, ErrMax, any IsDeny, or any Save return)"
+//@ ensures[C14,id=documented_classes] err != nil ==> denied(err) || Is(err, ErrClosed) || Is(err, ErrMax) || perr(err)
 
 //@ func mqtt.(*Client).PublishExactlyOnce -> exchange, err
+//@ ensures[C14,id=deny_end_disjoint] err != nil ==> !(denied(err) && ended(err))
 //@ requires c.persistence != nil && c.exactlyOnce.queue != nil && !closed(c.exactlyOnce.queue) && c.exactlyOnce.seqSem != nil && cap(c.exactlyOnce.seqSem) == 1 && (closed(c.exactlyOnce.seqSem) ==> len(c.exactlyOnce.seqSem) == 0)
 //@ requires c.writeSem != nil && cap(c.writeSem) == 1 && (closed(c.writeSem) ==> len(c.writeSem) == 0)
 //@ at[C05,C09] call publishPacket#1: assert head == 52 && packetID == 49152
@@ -874,8 +913,11 @@ package mqtt
 //@ ensures[C09,C14] (err != nil && denied(err)) ==> exchange == nil && forall(k, wire_len(k) == old(wire_len(k))) && forall(k, st_has(c.persistence, k) == old(st_has(c.persistence, k))) && len(c.exactlyOnce.queue) == old(len(c.exactlyOnce.queue))
 //@ ensures[C09] len(topic) == 0 || len(topic) > 65535 || !utf8ok(arr(topic), off(topic), len(topic)) || hasnul(arr(topic), off(topic), len(topic)) || pubrem(len(topic), len(message), 1) > 268435455 ==> err != nil && denied(err)
 //@ ensures[C14,C17] err != nil ==> exchange == nil && len(c.exactlyOnce.queue) == old(len(c.exactlyOnce.queue)) && forall(k, wire_len(k) == old(wire_len(k)))
+// "Errors (either ErrClosed, ErrMax, any IsDeny, or any Save return)"
+//@ ensures[C14,id=documented_classes] err != nil ==> denied(err) || Is(err, ErrClosed) || Is(err, ErrMax) || perr(err)
 
 //@ func mqtt.(*Client).PublishExactlyOnceRetained -> exchange, err
+//@ ensures[C14,id=deny_end_disjoint] err != nil ==> !(denied(err) && ended(err))
 //@ requires c.persistence != nil && c.exactlyOnce.queue != nil && !closed(c.exactlyOnce.queue) && c.exactlyOnce.seqSem != nil && cap(c.exactlyOnce.seqSem) == 1 && (closed(c.exactlyOnce.seqSem) ==> len(c.exactlyOnce.seqSem) == 0)
 //@ requires c.writeSem != nil && cap(c.writeSem) == 1 && (closed(c.writeSem) ==> len(c.writeSem) == 0)
 //@ at[C05,C09] call publishPacket#1: assert head == 53 && packetID == 49152
@@ -883,17 +925,20 @@ package mqtt
 //@ ensures[C09,C14] (err != nil && denied(err)) ==> exchange == nil && forall(k, wire_len(k) == old(wire_len(k))) && forall(k, st_has(c.persistence, k) == old(st_has(c.persistence, k))) && len(c.exactlyOnce.queue) == old(len(c.exactlyOnce.queue))
 //@ ensures[C09] len(topic) == 0 || len(topic) > 65535 || !utf8ok(arr(topic), off(topic), len(topic)) || hasnul(arr(topic), off(topic), len(topic)) || pubrem(len(topic), len(message), 1) > 268435455 ==> err != nil && denied(err)
 //@ ensures[C14,C17] err != nil ==> exchange == nil && len(c.exactlyOnce.queue) == old(len(c.exactlyOnce.queue)) && forall(k, wire_len(k) == old(wire_len(k)))
+// "Errors (either ErrClosed, ErrMax, any IsDeny, or any Save return)"
+//@ ensures[C14,id=documented_classes] err != nil ==> denied(err) || Is(err, ErrClosed) || Is(err, ErrMax) || perr(err)
 
 // SUBSCRIBE and UNSUBSCRIBE requests: denied arguments leave no trace; the packet that reaches write
 // has the header, the remaining length of its content, and the identifier of the slot just taken; the
 // slot is released again on every way out that is not the broker's answer.
 //@ pred topicok(s): len(s) > 0 && len(s) <= 65535 && utf8ok(arr(s), off(s), len(s)) && !hasnul(arr(s), off(s), len(s))
 //@ func mqtt.(*Client).subscribeLevel -> err
+//@ ensures[C14,id=deny_end_disjoint] err != nil ==> !(denied(err) && ended(err))
 //@ requires[C10] !rdr(c)
 //@ requires writable(c) && c.perPacketID != nil
 //@ loop[reveal=flatlen_] 1: invariant size == 2 + 3*len(topicFilters) + strslenk(topicFilters, rangeindex + 1) && strslenk(topicFilters, rangeindex + 1) <= 65535 * (rangeindex + 1)
 //@ loop 1: invariant forall(i, 0, rangeindex + 1, topicok(topicFilters[i]))
-//@ recvinv done(v): !denied(v) && !Is(v, ErrMax)
+//@ recvinv done(v): reqans(v)
 //@ loop 2: unroll 4
 //@ loop 3: modifies packet, elems(packet)
 //@ loop[reveal=flatlen_] 3: invariant len(packet) == 3 + vlen(size) + 3*(rangeindex + 1) + strslenk(topicFilters, rangeindex + 1)
@@ -907,11 +952,14 @@ package mqtt
 //@ ensures[C09,C14,reveal=flatlen_] (err != nil && denied(err)) == (len(topicFilters) == 0 || exists(i, 0, len(topicFilters), !topicok(topicFilters[i])) || 2 + 3*len(topicFilters) + strslen(topicFilters) > 268435455)
 //@ ensures[C09,C14] err != nil && denied(err) ==> forall(k, wire_len(k) == old(wire_len(k))) && forall(k, has(c.perPacketID, k) == old(has(c.perPacketID, k))) && len(c.writeSem) == old(len(c.writeSem))
 //@ ensures[C14] err != nil && Is(err, ErrMax) ==> forall(k, wire_len(k) == old(wire_len(k))) && forall(k, has(c.perPacketID, k) == old(has(c.perPacketID, k)))
+//@ ensures[C14,id=documented_classes] err != nil ==> reqclass(err)
+//@ ensures[C14,id=not_submitted_nothing_written] err != nil && notsent(err) ==> forall(k, wire_len(k) == old(wire_len(k)))
 
 //@ func mqtt.(*Client).Unsubscribe -> err
+//@ ensures[C14,id=deny_end_disjoint] err != nil ==> !(denied(err) && ended(err))
 //@ requires[C10] !rdr(c)
 //@ requires writable(c) && c.perPacketID != nil
-//@ recvinv done(v): !denied(v) && !Is(v, ErrMax)
+//@ recvinv done(v): reqans(v)
 //@ loop[reveal=flatlen_] 1: invariant size == 2 + 2*len(topicFilters) + strslenk(topicFilters, rangeindex + 1) && strslenk(topicFilters, rangeindex + 1) <= 65535 * (rangeindex + 1)
 //@ loop 1: invariant forall(i, 0, rangeindex + 1, topicok(topicFilters[i]))
 //@ loop 2: unroll 4
@@ -927,20 +975,31 @@ package mqtt
 //@ ensures[C09,C14,reveal=flatlen_] (err != nil && denied(err)) == (len(topicFilters) == 0 || exists(i, 0, len(topicFilters), !topicok(topicFilters[i])) || 2 + 2*len(topicFilters) + strslen(topicFilters) > 268435455)
 //@ ensures[C09,C14] err != nil && denied(err) ==> forall(k, wire_len(k) == old(wire_len(k))) && forall(k, has(c.perPacketID, k) == old(has(c.perPacketID, k))) && len(c.writeSem) == old(len(c.writeSem))
 //@ ensures[C14] err != nil && Is(err, ErrMax) ==> forall(k, wire_len(k) == old(wire_len(k))) && forall(k, has(c.perPacketID, k) == old(has(c.perPacketID, k)))
+//@ ensures[C14,id=documented_classes] err != nil ==> reqclass(err)
+//@ ensures[C14,id=not_submitted_nothing_written] err != nil && notsent(err) ==> forall(k, wire_len(k) == old(wire_len(k)))
 
 // the three subscribe entry points differ in the maximum QoS they ask for
 //@ func mqtt.(*Client).Subscribe -> err
 //@ requires[C10] !rdr(c)
 //@ requires writable(c) && c.perPacketID != nil
 //@ at[C09] call subscribeLevel#1: assert levelMax == 2
+//@ ensures[C14,id=documented_classes] err != nil ==> reqclass(err)
+//@ ensures[C14,id=not_submitted_nothing_written] err != nil && notsent(err) ==> forall(k, wire_len(k) == old(wire_len(k)))
+//@ ensures[C14,id=deny_end_disjoint] err != nil ==> !(denied(err) && ended(err))
 //@ func mqtt.(*Client).SubscribeLimitAtMostOnce -> err
 //@ requires[C10] !rdr(c)
 //@ requires writable(c) && c.perPacketID != nil
 //@ at[C09] call subscribeLevel#1: assert levelMax == 0
+//@ ensures[C14,id=documented_classes] err != nil ==> reqclass(err)
+//@ ensures[C14,id=not_submitted_nothing_written] err != nil && notsent(err) ==> forall(k, wire_len(k) == old(wire_len(k)))
+//@ ensures[C14,id=deny_end_disjoint] err != nil ==> !(denied(err) && ended(err))
 //@ func mqtt.(*Client).SubscribeLimitAtLeastOnce -> err
 //@ requires[C10] !rdr(c)
 //@ requires writable(c) && c.perPacketID != nil
 //@ at[C09] call subscribeLevel#1: assert levelMax == 1
+//@ ensures[C14,id=documented_classes] err != nil ==> reqclass(err)
+//@ ensures[C14,id=not_submitted_nothing_written] err != nil && notsent(err) ==> forall(k, wire_len(k) == old(wire_len(k)))
+//@ ensures[C14,id=deny_end_disjoint] err != nil ==> !(denied(err) && ended(err))
 
 // ReadBackoff: no wait after success or with a big message pending, for ever after Close, and otherwise a
 // fresh channel armed with a delay of one second (Persistence trouble) or within the configured bounds.
@@ -995,7 +1054,7 @@ package mqtt
 // subscription request itself; ReadSlices runs it exactly when the read routine reports ErrClosed.
 //@ func mqtt.(*Client).termCallbacks
 //@ requires c.pingAck != nil && !closed(c.pingAck) && cap(c.pingAck) == 1 && c.perPacketID != nil
-//@ at[C12] send ack#1: assert Is(v, ErrBreak)
+//@ at[C12,C14] send ack#1: assert pingans(v)
 //@ ensures[C12,C11] forall(k, !has(c.perPacketID, k)) && len(c.pingAck) == 0
 //@ func mqtt.(*Client).ReadSlices -> message, topic, err
 //@ requires[C10] rdr(c)
@@ -1030,10 +1089,13 @@ package mqtt
 // the packet is the two bytes of PINGREQ. (The hand-over of the slot between two concurrent callers after a
 // failed write, F7, is a matter of interleavings and not decided here.)
 //@ func mqtt.(*Client).Ping -> err
+//@ ensures[C14,id=deny_end_disjoint] err != nil ==> !(denied(err) && ended(err))
 //@ requires[C10] !rdr(c)
 //@ requires writable(c) && c.pingAck != nil && !closed(c.pingAck) && cap(c.pingAck) == 1
-//@ recvinv done(v): !denied(v) && !Is(v, ErrMax)
+//@ recvinv done(v): pingans(v)
 //@ at[C09] call write#1: assert len(p) == 2 && p[0] == 192 && p[1] == 0 && len(c.pingAck) == 1
 //@ ensures[C11,C14,C17] old(len(c.pingAck)) == 1 ==> err != nil && Is(err, ErrMax) && forall(k, wire_len(k) == old(wire_len(k))) && len(c.pingAck) == 1 && qat(c.pingAck, 0) == old(qat(c.pingAck, 0))
 //@ ensures[C14] err != nil && Is(err, ErrMax) ==> forall(k, wire_len(k) == old(wire_len(k)))
 //@ ensures[C14] err != nil ==> !denied(err)
+//@ ensures[C14,id=documented_classes] err != nil ==> !hastype(err, SubscribeError) && reqclass(err)
+//@ ensures[C14,id=not_submitted_nothing_written] err != nil && notsent(err) ==> forall(k, wire_len(k) == old(wire_len(k)))
